@@ -514,4 +514,61 @@ example : ∃ r, Gen.C09.defaultTools[0]? = some r ∧ r.2.1 = 0 := ⟨_, rfl, b
 theorem default_priorities_numeric :
     Gen.C09.defaultTools.all (fun r => (valOfCode r.2.2.2.1).num?.isSome) = true := by decide
 
+/-- **How many hooks a default tool contributes when switched on**, by its (behaviourally measured) kind: `Tool`,
+    `HandlerTool`, `CachingTool` exactly one; `ErrorTool` none (it replaces `request.error_response`);
+    `SessionTool` its own hook plus `save`, `close` and at most one lock hook. -/
+theorem default_tool_hook_count (i : Nat) (r : Row) (bucket : Conf) :
+    let n := (setupTool defaultAttrs (r.tool i) bucket).hooks.length
+    (r.kind = .plain ∨ r.kind = .handler ∨ r.kind = .caching → n = 1)
+    ∧ (r.kind = .error → n = 0 ∧ (setupTool defaultAttrs (r.tool i) bucket).errorResponse = some i)
+    ∧ (r.kind = .session → 3 ≤ n ∧ n ≤ 4) := by
+  have hk : (r.tool i).kind = r.kind := rfl
+  refine ⟨?_, ?_, ?_⟩
+  · rintro (h | h | h) <;> simp [setupTool, hk, h]
+  · intro h; simp [setupTool, h, Row.tool]
+  · intro h
+    simp only [setupTool, hk, h]
+    split
+    · simp
+    · split <;> simp
+
+/-! ## `request.error_response`: config entry against `ErrorTool` -/
+
+/-- what the toolmap entry does to `request.error_response` -/
+def erStep (attrs : Cb → Attrs) (tools : List Tool) (acc : Option Nat) (e : Nat × Conf) : Option Nat :=
+  if enabled e.2 then
+    match tools.find? (·.name = e.1) with
+    | some t => match (setupTool attrs t e.2).errorResponse with | some c => some c | none => acc
+    | none => acc
+  else acc
+
+/-- **`request.error_response` after a toolbox**: the wrapper of the *last* enabled ErrorTool of the toolmap, else what
+    it was before (the `request.error_response` config entry — the `request` namespace is processed before every
+    toolbox — or the default).  The hook points of `handle_error` (`before_error_response`, `after_error_response`)
+    are visited whichever callable is in place (`C09_documented_order`). -/
+theorem exitToolbox_errorResponse (attrs : Cb → Attrs) (tools : List Tool) (m : List (Nat × Conf)) (r r' : Req)
+    (h : exitToolbox attrs tools m r = some r') :
+    r'.errorResponse = m.foldl (erStep attrs tools) r.errorResponse := by
+  induction m generalizing r with
+  | nil => simp [exitToolbox] at h; subst h; rfl
+  | cons e es ih =>
+    obtain ⟨name, settings⟩ := e
+    unfold exitToolbox at h
+    by_cases hon : ((settings.get? .on).getD (.bool false)).truthy = true
+    · simp only [hon, if_true] at h
+      cases hf : tools.find? (·.name = name) with
+      | none => simp [hf] at h
+      | some t =>
+        simp only [hf] at h
+        rw [ih _ h]
+        simp only [List.foldl, erStep, enabled, hon, if_true, hf]
+        cases (setupTool attrs t settings).errorResponse <;> rfl
+    · simp only [hon] at h
+      rw [ih _ h]
+      simp [List.foldl, erStep, enabled, hon]
+
+example : (attachAll { attrs := fun _ => {}, toolboxes := fun _ => [⟨1, .error, .beforeHandler, 7, .int 50⟩],
+                       nsOrder := [.hooks, .request, .other, .other, .toolbox 0] } []
+            [.tool 0 1 .on (.bool true), .errorResponse 3]).map (·.errorResponse) = some (some 7) := by decide
+
 end CpProofs.C09
